@@ -1,8 +1,11 @@
 #!/bin/bash
-# mut.sh <patch> <ID> [tier]  : apply a patch to /repo, run one check, always revert. For self-validation only.
+# mut.sh <patch> <ID> [tier]  : self-validation only. Applies a patch to a scratch worktree of /repo (never to /repo
+# itself), runs one check against it (VERIF_REPO), and removes the worktree again.
 P="$(readlink -f "$1")"; ID="$2"; TIER="${3:-quick}"
-cd /repo || exit 2
-if [ -n "$(git status --porcelain)" ]; then echo "repo not clean"; exit 2; fi
-git apply "$P" || { echo "patch does not apply"; exit 2; }
-trap 'git -C /repo checkout -- . ; git -C /repo clean -fdq' EXIT
-cd /verif && ./check "$ID" "$TIER" 2>&1 | grep -E "^(VIOLATION|KNOWN|SUMMARY|MACHINERY)|signature:" | head -${MUT_LINES:-12}
+WT=/tmp/wt/mut-$$
+git -C /repo worktree add -q --detach $WT HEAD || exit 2
+trap 'git -C /repo worktree remove --force '$WT' >/dev/null 2>&1' EXIT
+( cd $WT && git apply "$P" ) || { echo "patch does not apply"; exit 2; }
+cd /verif && VERIF_REPO=$WT ./check "$ID" "$TIER" 2>&1 | grep -E "^(VIOLATION|KNOWN|SUMMARY|MACHINERY)|signature:" | head -${MUT_LINES:-12}
+# the evidence file now describes the mutant run: restore the committed one
+git -C /verif checkout -q -- "evidence/$ID.json" 2>/dev/null
